@@ -148,6 +148,44 @@ Proof.
   - apply var_jsonpath_process_not_panic.
 Qed.
 
+(* ---------- indexes into lists taken from earlier responses ---------- *)
+Lemma go_elem_in_range : forall i len, 0 <= i < len -> go_elem i len = Done tt.
+Proof.
+  intros i len H. unfold go_elem. destruct (Z.leb_spec 0 i); [|lia]. destruct (Z.ltb_spec i len); [|lia]. reflexivity.
+Qed.
+
+Lemma extract_elem_not_panic : forall ix len counter rnd, 0 <= len -> 0 <= counter ->
+  extract_elem ix len counter rnd <> Panicked.
+Proof.
+  intros ix len counter rnd Hl Hc. unfold extract_elem, calc_index, go_rem, go_intn.
+  destruct (Z.eqb_spec len 0); [discriminate|]. assert (Hp : 0 < len) by lia.
+  destruct ix as [i| | | |]; try discriminate.
+  - destruct ((0 <=? i) && (i <? len)) eqn:E.
+    + apply andb_true_iff in E. destruct E as [E1 E2]. apply Z.leb_le in E1. apply Z.ltb_lt in E2.
+      rewrite go_elem_in_range by lia. discriminate.
+    + assert (Hr : - len < Z.rem i len < len).
+      { destruct (Z.le_ge_cases 0 i).
+        - pose proof (Z.rem_bound_pos_pos i len ltac:(lia) ltac:(lia)). lia.
+        - pose proof (Z.rem_bound_pos_neg i len ltac:(lia) ltac:(lia)). lia. }
+      destruct (Z.ltb_spec (Z.rem i len) 0); rewrite go_elem_in_range by lia; discriminate.
+  - destruct (Z.geb_spec counter len).
+    + pose proof (Z.rem_bound_pos_pos counter len ltac:(lia) ltac:(lia)).
+      rewrite go_elem_in_range by lia. discriminate.
+    + rewrite go_elem_in_range by lia. discriminate.
+  - destruct (Z.leb_spec len 0); [lia|].
+    pose proof (Z.mod_pos_bound rnd len ltac:(lia)).
+    rewrite go_elem_in_range by lia. discriminate.
+  - rewrite go_elem_in_range by lia. discriminate.
+Qed.
+
+Definition pre_wf (p : pre_cfg) : Prop :=
+  match p with PreNone => True | PreIndex _ len counter _ => 0 <= len /\ 0 <= counter end.
+
+Lemma pre_eval_not_panic : forall p, pre_wf p -> pre_eval p <> Panicked.
+Proof.
+  intros [|ix len c r] H; cbn [pre_eval]; [discriminate|]. destruct H. apply extract_elem_not_panic; assumption.
+Qed.
+
 (* ---------- BaseGun.Shoot ---------- *)
 Lemma side_branches_no_panic : forall o r, is_panic (side_branches o r) = false.
 Proof.
@@ -197,7 +235,7 @@ Proof.
 Qed.
 
 (* ---------- ScenarioGun ---------- *)
-Definition pps_safe (s : step_in) : Prop := Forall (fun o => o <> Panicked) (si_pps s).
+Definition pps_safe (s : step_in) : Prop := si_pre s <> Panicked /\ Forall (fun o => o <> Panicked) (si_pps s).
 
 Lemma run_pps_safe : forall pps, Forall (fun o : outcome unit => o <> Panicked) pps -> run_pps pps <> Panicked.
 Proof.
@@ -207,7 +245,8 @@ Qed.
 
 Lemma shoot_step_safe : forall s, pps_safe s -> shoot_step s <> StepPanic.
 Proof.
-  intros s H. unfold shoot_step. rewrite side_branches_no_panic.
+  intros s [Hp H]. unfold shoot_step. rewrite side_branches_no_panic.
+  destruct (si_pre s) as [u| |]; [| |congruence]; cbn [is_panic negb]; [|discriminate].
   repeat match goal with |- context [if ?c then _ else _] => destruct c end; try discriminate.
   pose proof (run_pps_safe _ H) as Hr. destruct (run_pps (si_pps s)); [discriminate|discriminate|congruence].
 Qed.
@@ -226,6 +265,7 @@ Proof.
       rewrite H1, <- app_assoc. repeat split; [cbn; lia|].
       constructor; [|exact H3]. left.
       unfold shoot_step in E. rewrite side_branches_no_panic in E.
+      destruct (si_pre s) as [u| |]; cbn [is_panic negb] in E; try discriminate.
       repeat match type of E with context [if ?c then _ else _] => destruct c end; try discriminate.
       destruct (run_pps (si_pps s)); try discriminate. injection E as <-. reflexivity.
     + exists [{| sm_code := 0; sm_err := true |}]. repeat split. constructor; [right; reflexivity|constructor].
@@ -236,12 +276,13 @@ Lemma scenario_shoot_total : forall steps, Forall pps_safe steps ->
 Proof. intros steps H. unfold scenario_shoot. cbn [negb]. apply (scenario_steps_total steps [] H). Qed.
 
 (* steps whose postprocessors are the modelled ones *)
-Definition mk_step (o : gun_opts) (pre tmpl prep : bool) (r : response) (pps : list pp_cfg) : step_in :=
-  {| si_opts := o; si_pre_ok := pre; si_tmpl_ok := tmpl; si_prep_ok := prep; si_resp := r; si_pps := map pp_eval pps |}.
+Definition mk_step (o : gun_opts) (pre : pre_cfg) (tmpl prep : bool) (r : response) (pps : list pp_cfg) : step_in :=
+  {| si_opts := o; si_pre := pre_eval pre; si_tmpl_ok := tmpl; si_prep_ok := prep; si_resp := r; si_pps := map pp_eval pps |}.
 
-Lemma mk_step_safe : forall o pre tmpl prep r pps, pps_safe (mk_step o pre tmpl prep r pps).
+Lemma mk_step_safe : forall o pre tmpl prep r pps, pre_wf pre -> pps_safe (mk_step o pre tmpl prep r pps).
 Proof.
-  intros. unfold pps_safe, mk_step. cbn [si_pps]. apply Forall_forall. intros out Hin.
+  intros o pre tmpl prep r pps Hw. unfold pps_safe, mk_step. cbn [si_pps si_pre].
+  split; [apply pre_eval_not_panic, Hw|]. apply Forall_forall. intros out Hin.
   apply in_map_iff in Hin. destruct Hin as (p & <- & _). apply pp_eval_not_panic.
 Qed.
 
@@ -295,10 +336,12 @@ Proof.
   destruct (go_slice_piece _ _ _ _ Hg) as (pre & post & E & _). exists pre, post. split; assumption.
 Qed.
 
-Lemma scenario_total_modelled : forall o (specs : list (bool * bool * bool * response * list pp_cfg)),
+Lemma scenario_total_modelled : forall o (specs : list (pre_cfg * bool * bool * response * list pp_cfg)),
+  Forall (fun '(pre, _, _, _, _) => pre_wf pre) specs ->
   let steps := map (fun '(pre, tmpl, prep, r, pps) => mk_step o pre tmpl prep r pps) specs in
   exists l, scenario_shoot true steps = Returned l /\ length l = executed steps /\ Forall sample_ok_or_failure l.
 Proof.
-  intros o specs steps. apply scenario_shoot_total. apply Forall_forall. intros s Hin.
-  apply in_map_iff in Hin. destruct Hin as ([[[[pre tmpl] prep] r] pps] & <- & _). apply mk_step_safe.
+  intros o specs Hw steps. apply scenario_shoot_total. apply Forall_forall. intros s Hin.
+  apply in_map_iff in Hin. destruct Hin as ([[[[pre tmpl] prep] r] pps] & <- & Hin). apply mk_step_safe.
+  rewrite Forall_forall in Hw. apply (Hw _ Hin).
 Qed.
